@@ -21,13 +21,15 @@ func init() {
 	register(&Property{
 		ID:        "C25",
 		Title:     "Reconnecting to Typha converges without stale or lost resources",
-		Technique: "static analysis: inter-procedural must-hold lockset (Lock/defer Unlock, callee summaries, derived entry states), cut-set guard analysis and per-iteration path analysis on go/ssa of the dedupe buffer",
+		Technique: "static analysis: inter-procedural must-hold lockset (Lock/defer Unlock, callee summaries, derived entry states), cut-set guard analysis, per-iteration path analysis and a forward slice-ownership dataflow (hand-off to the sink) on go/ssa of the dedupe buffer",
 		DesignRef: "DESIGN.md §3 C25",
 		Explanation: "Decides structural clauses of the DedupeBuffer: (lock) every access to a state field of the buffer through the receiver happens with d.lock held, on every path, " +
 			"where helpers inherit the lock state of all their call sites and a function that unlocks/relocks splits its body; sync.Cond.Wait is only called with the lock held; " +
 			"(resync) the not-seen set is only ever assigned nil or liveResourceKeys.Copy(); the restart handler empties both queue structures; OnUpdates discards each received key " +
 			"from the not-seen set in the same iteration before queueing it; the resync finisher runs only under status==InSync && notSeen!=nil, is executed (not deferred) before the status " +
 			"is put on the queue, ranges over the not-seen set and queues updates whose Value is nil; " +
+			"(sink) in the dedupe buffer and in the Typha client, after a slice s has been handed to SyncerCallbacks.OnUpdates no path appends to a shorter alias of s's array (s[:0], s[:k]…), assigns, copies into or clears s[0:len(s)], " +
+			"or hands a slice still covering those elements to the sink again (flow-sensitive may-alias facts same/tail/overlap per SSA value, through phis and local cells); " +
 			"(restart) in the Typha client's restart loop OnTyphaConnectionRestarted() is invoked after WaitGroup.Wait() for the old connection and before every new connection is started; " +
 			"(live) liveResourceKeys.Add is guarded by Value!=nil and Discard by Value==nil of the same dequeued element, one of them follows the removal from keyToPendingUpdate before " +
 			"the loop iterates, the function returns or the lock can be released; UpdateType is recalculated on every path that queues a non-nil value, KVUpdated under " +
@@ -71,6 +73,12 @@ func init() {
 				Old: "\t\t\t\trac.OnTyphaConnectionRestarted()\n", New: "\t\t\t\t_ = rac\n", Expect: "C25.restart/notify-before-reconnect"},
 			{Name: "restart announced while the old connection may still deliver", File: "typha/pkg/syncclient/sync_client.go",
 				Old: "\t\t\tconnectionFinishedWG.Wait()\n", New: "", Expect: "C25.restart/old-connection-finished"},
+			{Name: "batch buffer rewound over the updates just handed to the sink", File: c25File,
+				Old: "\t\t\t\tsink.OnUpdates(updates)\n\t\t\t\tupdates = updates[len(updates):]", New: "\t\t\t\tsink.OnUpdates(updates)\n\t\t\t\tupdates = updates[:0]", Expect: "C25.sink/DedupeBuffer.dropLockAndSendBatch/no-write-after-handoff"},
+			{Name: "handed updates cleared to drop references", File: c25File,
+				Old: "\t\t\t\tsink.OnUpdates(updates)\n\t\t\t\tupdates = updates[len(updates):]", New: "\t\t\t\tsink.OnUpdates(updates)\n\t\t\t\tclear(updates)\n\t\t\t\tupdates = updates[len(updates):]", Expect: "C25.sink/DedupeBuffer.dropLockAndSendBatch/no-write-after-handoff"},
+			{Name: "updates sent before a status are sent again after it", File: c25File,
+				Old: "\t\t\t\tsink.OnUpdates(updates)\n\t\t\t\tupdates = updates[len(updates):] // Re-slice to end so we don't share storage.\n", New: "\t\t\t\tsink.OnUpdates(updates)\n", Expect: "C25.sink/DedupeBuffer.dropLockAndSendBatch/no-redelivery"},
 			{Name: "live set updated with inverted sense", File: c25File,
 				Old: "if u.update.Value == nil {", New: "if u.update.Value != nil {", Expect: "C25.live/add-guard"},
 			{Name: "sent keys are never added to the live set", File: c25File,
@@ -112,11 +120,81 @@ func runC25(c *Ctx) {
 
 	c.Rule("C25.restart", "E-ORDER", "the Typha client calls OnTyphaConnectionRestarted after the old connection's goroutines finished and before every reconnection", 2)
 
+	c.Rule("C25.sink", "E-FLOW", "a slice handed to SyncerCallbacks.OnUpdates (the sink may keep it) is never written afterwards and its elements are not handed over twice: later appends go to nil, a fresh slice or s[len(s):]", 3)
+
 	m.lockRule()
 	m.resolve()
 	m.resyncRules()
 	m.liveRules()
-	c25RestartRules(c)
+	nSink := c25SinkRule(c, p, c25Pkg)
+	nSink += c25RestartRules(c)
+	if nSink < 3 {
+		c.Lost("expected >= 3 SyncerCallbacks.OnUpdates hand-offs in %s and %s, found %d", c25Pkg, c25ClientPkg, nSink)
+	}
+}
+
+// ---------------------------------------------------------------- C25.sink --
+
+// c25SinkRule: every call of api.SyncerCallbacks.OnUpdates(s) in pkg hands the
+// slice over for good.  Felix's consumers queue the slice and read it later on
+// another goroutine, so a write into s[0:len(s)] after the call silently
+// replaces updates that downstream has not applied yet, and handing the same
+// elements again delivers them twice.  Returns the number of hand-off sites.
+func c25SinkRule(c *Ctx, p *Prog, pkg string) int {
+	sinkArg := func(in ssa.Instruction) ssa.Value {
+		ci, ok := in.(ssa.CallInstruction)
+		if !ok {
+			return nil
+		}
+		cc := ci.Common()
+		if !cc.IsInvoke() || cc.Method.Name() != "OnUpdates" || len(cc.Args) != 1 {
+			return nil
+		}
+		if cc.Method.Pkg() == nil || cc.Method.Pkg().Path() != calicoPrefix+c25APIPkg {
+			return nil
+		}
+		if _, isSlice := cc.Args[0].Type().Underlying().(*types.Slice); !isSlice {
+			return nil
+		}
+		return cc.Args[0]
+	}
+	n := 0
+	for _, f := range p.AllFuncs() {
+		if f.Pkg == nil || f.Pkg.Pkg.Path() != calicoPrefix+pkg || f.Blocks == nil {
+			continue
+		}
+		sinks, issues, undecided := c25HandedFlow(f, sinkArg)
+		if len(sinks) == 0 {
+			continue
+		}
+		host := fnName(f)
+		bySite := map[ssa.Instruction]bool{}
+		for _, u := range undecided {
+			bySite[u] = true
+		}
+		for _, s := range sinks {
+			n++
+			if bySite[s] {
+				c.Undecided("C25.sink/"+host, p.Pos(s.Pos()), "the slice handed to OnUpdates in %s lives in a captured variable, field or global; its later uses are not modelled", host)
+			}
+		}
+		for _, is := range issues {
+			switch is.Kind {
+			case "redeliver":
+				c.Violate("C25.sink/"+host+"/no-redelivery", p.Pos(is.At.Pos()), "%s: %s (downstream would see already applied updates again, e.g. KVNew for a key it holds)", host, is.What)
+			default:
+				c.Violate("C25.sink/"+host+"/no-write-after-handoff", p.Pos(is.At.Pos()), "%s: %s; the sink may process the slice asynchronously, so updates it has not applied yet are replaced (stale values / lost deletions downstream)", host, is.What)
+			}
+		}
+		if len(issues) == 0 {
+			for _, s := range sinks {
+				if !bySite[s] {
+					c.Ok("C25.sink/"+host, p.Pos(s.Pos()), "after OnUpdates(s) no path appends into, stores to, copies into or clears s[0:len(s)], nor hands those elements over again")
+				}
+			}
+		}
+	}
+	return n
 }
 
 // ---------------------------------------------------------------- C25.lock --
@@ -953,8 +1031,9 @@ const c25ClientPkg = "typha/pkg/syncclient"
 // restartRules: the Typha client announces a restart to a restart-aware consumer
 // after the previous connection's goroutines have finished and before it starts
 // the next connection.
-func c25RestartRules(c *Ctx) {
+func c25RestartRules(c *Ctx) (nSinkSites int) {
 	p := c.Load(c25ClientPkg)
+	nSinkSites = c25SinkRule(c, p, c25ClientPkg)
 	sp := p.SSAPkg(c25ClientPkg)
 	if sp == nil {
 		c.Lost("package %s", c25ClientPkg)
@@ -1053,4 +1132,5 @@ func c25RestartRules(c *Ctx) {
 	if n == 0 {
 		c.Lost("no restart loop (RestartAwareCallbacks user) in %s", c25ClientPkg)
 	}
+	return nSinkSites
 }
